@@ -240,6 +240,9 @@ class C15(Check):
             decoy = models.gen_net(rng, n_nodes=rng.randint(6, 8), per_node_ops=True, libs=('lin', 'sat', 'osc', 'leak'), build='python')
             for e in _all_edges(decoy):
                 e[2] = {k: v for k, v in e[2].items() if v is not None}
+            if spec.get('twin_sub'):
+                cands = []      # (an override on one instance of a twin sub-circuit makes the two differ: one operator with
+                #                  different override sets - KF-C15-shared-operator-overrides' subject, not this stratum's)
             samepath = {'decoy': decoy if rng.random() < 0.7 else None, 'load_decoy': rng.random() < 0.5,
                         'rewrites': [[rng.choice(cands), rng.choice([1.5, 2.5, 3.5, 0.5, 1.25, 2.25, 3.25, 0.25, 2.75, 1.75])]
                                      for _ in range(rng.randint(0, 2))] if cands else []}
